@@ -51,6 +51,9 @@ def make_ops(rng, tier):
                             "ctx": {"seq": b(s), "qual": [], "k": k, "rc": j % 2 == 0, "qf": "none", "minq": 0, "reads": True}})
         for j in range(nseq):
             s = gen.rand_seq(rng, rng.randint(k, 2 * k + 30))
+            if j % 2 == 0:      # a window whose arms are their own reverse complement: both strands must hash alike
+                at = rng.randint(0, len(s) - k)
+                s = s[:at] + gen.selfrc_window(rng, k) + s[at + k:]
             ops.append({"op": "hash", "ctx": {"seq": b(s), "rcseq": b(revcomp(s)), "k": k, "rc": j % 2 == 0}})
     return ops
 
